@@ -583,6 +583,163 @@ def check_nnx_graph_split(ctx, rng, n):
 
 
 # ------------------------------------------------------------------------------------------------
+# NNX literal forms (str, class, bool, ..., None, list/tuple, Any/All/Not over literals): to_predicate and
+# filters_to_predicates themselves are modelled (SFilter / toPredicate / filtersToPredicates)
+# ------------------------------------------------------------------------------------------------
+
+
+def lit_python(j):
+  if j is None or isinstance(j, bool):
+    return j
+  if j == 'ellipsis':
+    return ...
+  if 'str' in j:
+    return j['str']
+  if 'type' in j:
+    return VTYPES[j['type']]
+  if 'seq' in j:
+    xs = [lit_python(x) for x in j['seq']]
+    return tuple(xs) if j.get('tuple') else xs
+  if 'any' in j:
+    return filterlib.Any(*[lit_python(x) for x in j['any']])
+  if 'all' in j:
+    return filterlib.All(*[lit_python(x) for x in j['all']])
+  if 'not' in j:
+    return filterlib.Not(lit_python(j['not']))
+  if 'pred' in j:
+    return nf_python(j['pred'])
+  raise ValueError(j)
+
+
+def _lit_oracle(j, path, v):
+  """What each literal form is documented to mean, read independently of to_predicate."""
+  if j is None:
+    return False
+  if isinstance(j, bool):
+    return j
+  if j == 'ellipsis':
+    return True
+  if 'str' in j:
+    return hasattr(v, 'tag') and v.tag == j['str']
+  if 'type' in j:
+    return _nnx_oracle({'type': j['type']}, path, v)
+  if 'seq' in j:
+    return any(_lit_oracle(x, path, v) for x in j['seq'])
+  if 'any' in j:
+    return any(_lit_oracle(x, path, v) for x in j['any'])
+  if 'all' in j:
+    return all(_lit_oracle(x, path, v) for x in j['all'])
+  if 'not' in j:
+    return not _lit_oracle(j['not'], path, v)
+  if 'pred' in j:
+    return _nnx_oracle(j['pred'], path, v)
+  raise ValueError(j)
+
+
+def _is_catch_all(j):
+  return j is True or j == 'ellipsis'
+
+
+def random_literal(rng, atoms, depth):
+  r = rng.random()
+  if depth <= 0 or r < 0.45:
+    k = rng.randrange(8)
+    if k == 0:
+      return {'str': rng.choice(TAGS + ['zz'])}
+    if k == 1:
+      return {'type': rng.choice(['Param', 'BatchStat', 'MyParam', 'Variable', 'Cache'])}
+    if k == 2:
+      return rng.choice([True, False])
+    if k == 3:
+      return 'ellipsis'
+    if k == 4:
+      return None
+    if k == 5:
+      return {'pred': rng.choice(atoms)}
+    return {'str': rng.choice(TAGS)} if k == 6 else {'type': rng.choice(['Param', 'BatchStat'])}
+  n = rng.choice([0, 1, 2, 2, 3])
+  kids = [random_literal(rng, atoms, depth - 1) for _ in range(n)]
+  if r < 0.70:
+    return {'seq': kids, 'tuple': rng.random() < 0.5}
+  if r < 0.80:
+    return {'any': kids}
+  if r < 0.90:
+    return {'all': kids}
+  return {'not': random_literal(rng, atoms, depth - 1)}
+
+
+def check_lit_denote(ctx, drv, lits, objs):
+  items_j = [[[enc_key(k) for k in p], info_of(v)] for p, v in objs]
+  outs = drv.run([('lit_denote', [f, items_j]) for f in lits])
+  for f, m in zip(lits, outs):
+    case = {'kind': 'nnx-literal', 'filter': f}
+    ctx.case(case, nontrivial=isinstance(f, dict))
+    ctx.count('nnx_literal_head', next(iter(f)) if isinstance(f, dict) else repr(f))
+    r = call(lambda: [bool(filterlib.to_predicate(lit_python(f))(p, v)) for p, v in objs])
+    want = ('ok', [_lit_oracle(f, p, v) for p, v in objs])
+    if r != want:
+      ctx.violation('nnx-literal-wrong', f'to_predicate of literal {f} gives {r}, the literal stands for {want}', dict(case, got=r, want=want))
+      continue
+    if m != r:
+      ctx.disagreements_checked += 1
+      ctx.violation('nnx-literal-model-mismatch', f'model {m} vs impl {r} on literal {f}', case, concrete=False)
+
+
+def check_lit_split(ctx, drv, lit_lists, objs):
+  state, flat = build_state(objs)
+  items = [(p, flat[p]) for p in flat]
+  items_j = [[[enc_key(k) for k in p], info_of(v)] for p, v in items]
+  outs = drv.run([('lit_split', [fs, items_j]) for fs in lit_lists])
+  for fs, m in zip(lit_lists, outs):
+    case = {'kind': 'nnx-literal-split', 'filters': fs}
+    ctx.case(case, nontrivial=len(fs) >= 2)
+    ctx.count('nnx_literal_split_nfilters', len(fs))
+    ca = [_is_catch_all(f) for f in fs]
+    order_ok = all(all(ca[i + 1 :]) for i in range(len(fs)) if ca[i])
+    ctx.count('nnx_literal_split_shape', 'catchall-misplaced' if not order_ok else ('trailing-catchalls=%d' % sum(ca)))
+    want = []
+    for p, v in items:
+      idx = len(fs)
+      for i, f in enumerate(fs):
+        if _lit_oracle(f, p, v):
+          idx = i
+          break
+      want.append(idx)
+    exhaustive = all(i < len(fs) for i in want)
+    pfs = [lit_python(f) for f in fs]
+    r = call(lambda: statelib.split_state(state, *pfs))
+    r2 = call(lambda: statelib.filter_state(state, *pfs))
+    if not order_ok:
+      # the `...`-must-be-last rule: both entry points refuse
+      if r[0] == 'ok' or r2[0] == 'ok':
+        ctx.violation('nnx-literal-ellipsis-rule', f'split/filter accepted {fs} although a ... / True is followed by another filter', case)
+        continue
+      mwant = ('ok', 'ValueError')
+    else:
+      if exhaustive:
+        if r[0] != 'ok':
+          ctx.violation('nnx-literal-split-raises', f'split_state raised {r[1]} on exhaustive literal filters {fs}', case)
+          continue
+        got = _bucket_index([r[1]] if len(fs) == 1 else list(r[1]), items)
+        if got != want:
+          ctx.violation('nnx-literal-split-not-first-match', f'split_state{fs}: item buckets {got}, first-match partition {want}', dict(case, got=got, want=want))
+          continue
+      elif r[0] == 'ok':
+        ctx.violation('nnx-literal-split-lossy', f'split_state accepted non-exhaustive literal filters {fs}', case)
+        continue
+      if r2[0] != 'ok':
+        ctx.violation('nnx-literal-filter-raises', f'filter_state raised {r2[1]} on {fs}', case)
+        continue
+      got2 = _bucket_index([r2[1]] if len(fs) == 1 else list(r2[1]), items, default=len(fs))
+      if got2 != want:
+        ctx.violation('nnx-literal-filter-not-first-match', f'filter_state{fs}: buckets {got2}, want {want}', dict(case, got=got2, want=want))
+        continue
+      mwant = ('ok', want)
+    if m != mwant:
+      ctx.disagreements_checked += 1
+      ctx.violation('nnx-literal-split-model-mismatch', f'model {m} vs impl {mwant} on {fs}', case, concrete=False)
+
+# ------------------------------------------------------------------------------------------------
 # entry points
 # ------------------------------------------------------------------------------------------------
 
@@ -651,6 +808,21 @@ def run(ctx):
   flists += [fl + ['everything'] for fl in rng.sample(flists, 200)]
   check_nnx_split(ctx, drv, flists, objs)
   check_ellipsis(ctx, drv, 4 if not thorough else 6)
+  # literal forms through to_predicate / filters_to_predicates
+  lits = [True, False, None, 'ellipsis', {'seq': [], 'tuple': False}, {'seq': [], 'tuple': True}]
+  lits += [random_literal(rng, atoms, 4) for _ in range(1200 if not thorough else 15000)]
+  check_lit_denote(ctx, drv, lits, objs)
+  lpool = [l for l in lits if not _is_catch_all(l)]
+  llists = []
+  for _ in range(500 if not thorough else 6000):
+    body = [rng.choice(lpool) for _ in range(rng.randrange(0, 4))]
+    tail = [rng.choice([True, 'ellipsis']) for _ in range(rng.choice([0, 1, 1, 2, 3]))]
+    fl = body + tail
+    if fl and rng.random() < 0.2:  # misplace a catch-all
+      fl.insert(rng.randrange(len(fl)), rng.choice([True, 'ellipsis']))
+    if fl:
+      llists.append(fl)
+  check_lit_split(ctx, drv, llists, objs)
   check_nnx_graph_split(ctx, rng, 40 if not thorough else 400)
 
   ctx.sample({'kind': 'linen-pair', 'a': lf_json(pairs[len(pairs) // 2][0]), 'b': lf_json(pairs[len(pairs) // 2][1]), 'probes': probes})
@@ -685,6 +857,12 @@ def _run_case(ctx, drv, obj):
     check_nnx_split(ctx, drv, [case['filters']], objs)
   elif kind == 'nnx-ellipsis':
     check_ellipsis(ctx, drv, 6)
+  elif kind == 'nnx-literal':
+    objs, _ = make_items()
+    check_lit_denote(ctx, drv, [case['filter']], objs)
+  elif kind == 'nnx-literal-split':
+    objs, _ = make_items()
+    check_lit_split(ctx, drv, [case['filters']], objs)
   else:
     ctx.notes.append(f'unknown corpus case kind {kind}')
 
